@@ -2154,12 +2154,14 @@ class VM:
                             )
                         p = q = end
                     parts.append(s[p:])
-            elif to_string(sep) == "":
-                parts = list(s)
-            elif s == "":
-                parts = [""]
             else:
-                parts = s.split(to_string(sep))
+                sep = to_string(sep)  # converted once
+                if sep == "":
+                    parts = list(s)
+                elif s == "":
+                    parts = [""]
+                else:
+                    parts = s.split(sep)
 
             if limit >= 0:
                 parts = parts[:limit]
@@ -2322,20 +2324,21 @@ class VM:
 
         def replace(*args):
             pattern = arg(args, 0)
-            replacer = as_replacer(arg(args, 1))
             if isinstance(pattern, JSRegExp):
-                return replace_regexp(pattern, replacer)
-            return replace_string(to_string(pattern), replacer, False)
+                return replace_regexp(pattern, as_replacer(arg(args, 1)))
+            # the search value is converted before the replacement value
+            search = to_string(pattern)
+            return replace_string(search, as_replacer(arg(args, 1)), False)
 
         def replaceAll(*args):
             pattern = arg(args, 0)
-            replacer = as_replacer(arg(args, 1))
             if isinstance(pattern, JSRegExp):
-                # replaceAll with regex requires global flag
+                # replaceAll with regex requires global flag (checked before the replacement value is looked at)
                 if "g" not in pattern._flags:
                     raise JSTypeError("replaceAll called with a non-global RegExp")
-                return replace_regexp(pattern, replacer)
-            return replace_string(to_string(pattern), replacer, True)
+                return replace_regexp(pattern, as_replacer(arg(args, 1)))
+            search = to_string(pattern)
+            return replace_string(search, as_replacer(arg(args, 1)), True)
 
         def match(*args):
             regexp = regexp_of(arg(args, 0))
